@@ -9,6 +9,8 @@ import (
 
 	"pgregory.net/rapid"
 
+	"github.com/cybergarage/go-tracing/tracer"
+
 	"verif/internal/connsim"
 	"verif/internal/doubles"
 	"verif/internal/resp"
@@ -171,6 +173,11 @@ func spanKind(s doubles.Span) string {
 type c20Stop struct {
 	Reqs  [][]string `json:"reqs"`   // requests answered before Stop
 	InCmd []string   `json:"in_cmd"` // if set: this command is in progress (parked in its first handler call) when Stop is called
+	// Swap: instead of Stop, the tracer is replaced at run time while the connection waits for its next request
+	// ("null": by the null tracer, "other": by a second recording tracer); After are the requests sent afterwards,
+	// then the client ends the stream. Every span the first tracer has started must still be finished exactly once.
+	Swap  string     `json:"swap,omitempty"`
+	After [][]string `json:"after,omitempty"`
 }
 
 func evalC20Stop(c c20Stop) *Failure {
@@ -218,6 +225,43 @@ func evalC20Stop(c c20Stop) *Failure {
 			return failf("harness|gate", "%v made no handler call", c.InCmd)
 		}
 	}
+	if c.Swap != "" {
+		what = fmt.Sprintf("requests %v, then the tracer is replaced (%s) while the connection is idle, then requests %v and end of stream", c.Reqs, c.Swap, c.After)
+		if c.Swap == "null" {
+			srv.SetTracer(tracer.NullTracer)
+		} else {
+			srv.SetTracer(doubles.NewTracer(&connsim.Log{}))
+		}
+		for _, r := range c.After {
+			conn.Feed(resp.Cmd(r...).Bytes())
+			if idle, to := conn.WaitIdle(nil, serveTimeout()); !idle || to {
+				srv.Stop()
+				return stallFailure("c20", what)
+			}
+		}
+		conn.CloseRead(false)
+		select {
+		case o := <-done:
+			if o.Panic != nil {
+				srv.Stop()
+				return failf("c20|panic|"+panicKey(o), "%s: panic: %v", what, o.Panic)
+			}
+		case <-time.After(serveTimeout()):
+			srv.Stop()
+			return stallFailure("c20", what)
+		}
+		srv.Stop()
+		// the first tracer's spans: finished exactly once, nested (writes made after the swap are not in its roots: only the forest is judged)
+		for _, sp := range tr.Snapshot() {
+			if len(sp.Finishes) == 0 {
+				return failf("c20|unfinished|"+spanKind(sp), "%s: span %q (#%d) of the replaced tracer was started and never finished", what, sp.Name, sp.ID)
+			}
+			if len(sp.Finishes) > 1 {
+				return failf("c20|finished-twice|"+spanKind(sp), "%s: span %q (#%d) of the replaced tracer was finished %d times", what, sp.Name, sp.ID, len(sp.Finishes))
+			}
+		}
+		return nil
+	}
 	stopped := make(chan struct{})
 	go func() { srv.Stop(); close(stopped) }()
 	deadline := time.Now().Add(5 * time.Second)
@@ -248,7 +292,7 @@ func init() {
 
 func TestC20(t *testing.T) {
 	h := newHarness(t, "C20", "the pipelines of C03/C10 (every command with valid, invalid, missing and surplus arguments, unknown commands, QUIT, composed commands, scripted handler errors), optionally interspersed with requests that carry no command (status line, integer, bulk, error, empty array, array with a null/integer/nested first element) "+
-		"x end of stream at a random byte offset (request boundary or inside a request) x reply writes failing after N bytes (the peer is gone) x optionally a required password (unauthorized requests, AUTH with right/wrong password); plus connections ended by the SERVER (Stop while the connection waits for its next request or is parked inside a handler operation of a command); a tracer double records span start/finish in the same "+
+		"x end of stream at a random byte offset (request boundary or inside a request) x reply writes failing after N bytes (the peer is gone) x optionally a required password (unauthorized requests, AUTH with right/wrong password); plus connections ended by the SERVER (Stop while the connection waits for its next request or is parked inside a handler operation of a command), and the tracer replaced at run time while the connection is idle; a tracer double records span start/finish in the same "+
 		"sequence-numbered log as handler calls and connection writes. Oracle: spans form a forest, each finished exactly once, children nested in parents, roots and siblings do not overlap, every write/handler call inside exactly one root, at most one reply per root. "+
 		"Non-trivial: the pipeline has a request whose outcome is not plain success (argument error, unknown, unauthorized, QUIT, cut, handler error, failed reply write) or a composed command. Distinct = distinct (stream, cut, password, script).")
 	defer h.Finish()
@@ -260,7 +304,12 @@ func TestC20(t *testing.T) {
 		for i, n := 0, rapid.IntRange(0, 3).Draw(rt, "nreqs"); i < n; i++ {
 			c.Reqs = append(c.Reqs, rapid.SampledFrom(pool).Draw(rt, "req"))
 		}
-		if rapid.Bool().Draw(rt, "incmd") {
+		if rapid.IntRange(0, 2).Draw(rt, "swap") == 0 {
+			c.Swap = rapid.SampledFrom([]string{"null", "other"}).Draw(rt, "swapto")
+			for i, n := 0, rapid.IntRange(0, 2).Draw(rt, "nafter"); i < n; i++ {
+				c.After = append(c.After, rapid.SampledFrom(pool).Draw(rt, "after"))
+			}
+		} else if rapid.Bool().Draw(rt, "incmd") {
 			c.InCmd = rapid.SampledFrom([][]string{{"GET", "k"}, {"INCR", "n"}, {"APPEND", "k", "v"}, {"MSET", "a", "1", "b", "2"}, {"STRLEN", "k"}, {"HLEN", "h"}}).Draw(rt, "cmd")
 		}
 		h.Col.Case(true, []byte(fmt.Sprint("stop", c)), "server-stop")
